@@ -176,6 +176,19 @@ def run(ctx: Ctx):
         if ok:
             others = [t for t, pol in guards_of(pm, rets[0]) if u(t) not in (f"not {flag}", flag)]
             ok = not others
+        if not ok:
+            # by specialisation: with the flag false every test on it is folded away; what remains must be `return <the parameter>` on
+            # every path (a single trailing return shared with the training arm, which re-binds the name only under the flag, included)
+            from sa.specialise import specialise as _spec_ev
+            try:
+                ev_node, folded_ = _spec_ev(f.node, {flag: False}, inline_tests=True)
+                rd_ev = ReachingDefs(ev_node)
+                rets_ev = [n for n in own_nodes(ev_node) if isinstance(n, ast.Return)]
+                ok = folded_ > 0 and bool(rets_ev) and all(isinstance(r_.value, ast.Name) and r_.value.id == "feats" and all(
+                    d.kind == "param" for d in rd_ev.defs_of(r_.value)) for r_ in rets_ev) and not any(
+                    isinstance(n, (ast.If, ast.While, ast.For)) and any(isinstance(x, ast.Return) for x in ast.walk(n)) for n in own_nodes(ev_node))
+            except (ValueError, KeyError):
+                ok = False
         col.ob("G9", "S3", f"{rel}::{f.qualname}::eval-identity", ok,
                f"in evaluation mode {f.qualname} does not return the parameter `feats` itself", rel, f.line)
     c = [c for c in own_calls(fwd.node)]
